@@ -151,6 +151,11 @@ class Loader:
         if top == "geographiclib":
             from . import symgeo
             return symgeo.module_for(name, fromlist)
+        if top == "scipy":
+            from . import symscipy
+            if name == "scipy.interpolate":
+                return symscipy.interpolate if fromlist else symscipy
+            raise ImportError(f"{name} is not part of the model")
         if top == "xarray":
             from . import symxr
             if name == "xarray.core.indexing":
